@@ -28,7 +28,8 @@ def build(scratch):
     frame = ["#[derive(Debug, Clone)]\n" + ex.item(VM, "struct", "StackFrame")]
     fs, fob, fend = ex.impl_range(VM, r"impl StackFrame")
     frame.append("impl StackFrame {\n    " + ex.fn(VM, "new", within=(fob, fend), occurrence=0) + "\n}")
-    methods = [ex.fn(VM, "call_with_instructions_and_reset_state"), ex.fn(VM, "get_last_stack_frame_sp")]
+    methods = [ex.fn(VM, "call_with_instructions_and_reset_state"), ex.fn(VM, "get_last_stack_frame_sp"),
+               ex.fn(VM, "handle_pop_pure"), ex.fn(VM, "handle_pop_pure_value")]
     ins = ["#[derive(Copy, Clone, Debug, PartialEq, Eq, Hash)] // real: + Serialize, Deserialize\n" + ex.item(INSTR, "struct", "DenseInstruction"),
            "#[derive(Copy, Clone, PartialEq, PartialOrd, Eq, Ord, Hash, Debug)]\n#[allow(non_camel_case_types)]\n#[repr(transparent)]\n" + ex.item(INSTR, "struct", "u24"),
            ex.impl_block(INSTR, r"impl Add for u24"), ex.impl_block(INSTR, r"impl u24"), ex.impl_block(INSTR, r"impl DenseInstruction")]
@@ -83,7 +84,10 @@ unexpected_cfgs = {{ level = "allow", check-cfg = ['cfg(kani)'] }}
 B = "operand stack of 3 symbolic values + 0-2 temporaries left by the failing evaluation; 0-5 older frames + 1 materialised frame of the enclosing evaluation + the callee's frame; caller's pop_count 1-3"
 C0 = ("a closure called back from native code runs as a nested VM entry: the evaluation starts at instruction 0 of the callee with exactly one frame to account for; on return the caller's "
       "ip, code, pop_count and depth are restored; values below the callee's frame base are untouched; ")
+RB = "operand stack of 5 symbolic values, callee frame base 1-3, 0-5 older frames"
 OBS = {
+    "function_return_contract": dict(kind="bounded", bound=RB, functions=["VmCore::handle_pop_pure", "VmCore::handle_pop_pure_value", "VmCore::get_last_stack_frame_sp"],
+        contract="a function return (POPPURE, or the value-carrying form used by the fused instructions) removes exactly the callee's frame and everything the callee left above its frame base, puts exactly the return value there, and resumes the caller at the ip and in the code saved in the frame with sp = the caller's frame base and everything below untouched; when the last frame owned by this evaluation returns, the value is handed back and the operand stack is cut back to the frame base"),
     "nested_entry_success_contract": dict(kind="bounded", bound=B, functions=["VmCore::call_with_instructions_and_reset_state"], contract=C0 + "a successful evaluation returns its value"),
     "nested_entry_handler_contract": dict(kind="bounded", bound=B, functions=["VmCore::call_with_instructions_and_reset_state", "VmCore::get_last_stack_frame_sp", "StackFrame::new"],
         contract=C0 + "an error under a frame that carries a handler: the handler runs in that frame's slot (frame count as before, frame accounting = 1), on an operand stack cut back to the frame base plus exactly the error value, at instruction 0 of the handler - and it is NO LONGER installed while it runs (an error inside it propagates outward instead of re-entering it)"),
